@@ -577,6 +577,12 @@ type exitCount struct {
 }
 
 func CountOnPaths(fn *ssa.Function, start Pt, events func(ssa.Instruction) int, skipBlock func(*ssa.BasicBlock) bool) []exitCount {
+	return CountUntil(fn, start, events, skipBlock, nil)
+}
+
+// CountUntil is CountOnPaths that additionally ends a path (and records it as an exit) when it enters a block
+// for which stopAt is true.
+func CountUntil(fn *ssa.Function, start Pt, events func(ssa.Instruction) int, skipBlock func(*ssa.BasicBlock) bool, stopAt func(*ssa.BasicBlock) bool) []exitCount {
 	type st struct {
 		b *ssa.BasicBlock
 		c int
@@ -629,6 +635,15 @@ func CountOnPaths(fn *ssa.Function, start Pt, events func(ssa.Instruction) int, 
 		}
 		for _, s := range b.Succs {
 			if skipBlock != nil && skipBlock(s) {
+				continue
+			}
+			if stopAt != nil && stopAt(s) {
+				var w []string
+				for p := it; p != nil; p = p.parent {
+					w = append([]string{blockDesc(p.s.b)}, w...)
+				}
+				w = append(w, blockDesc(s))
+				out = append(out, exitCount{Exit: s.Instrs[0], Count: c, Witness: w})
 				continue
 			}
 			push(st{s, c}, 0, it)
